@@ -115,3 +115,32 @@ Proof.
   exists es. split; [exact Ee|]. split; [exact Hw|].
   apply (fmt_diffs_apply input ds out es E Eo Ee). apply trailing_lines_blank. exact E.
 Qed.
+
+(* the exact form: the edited document is the formatter's lines followed by the lines of the original
+   after its last statement, all blank; the formatter's own text ends after its last line *)
+Theorem fmt_diffs_exact input out : fmt_bytes input = Ok out ->
+  exists es L k,
+    fmt_diffs input = Ok es /\
+    apply_edits (split_on 10 input) 0 es = L ++ skipn k (split_on 10 input) /\
+    split_on 10 out = L ++ [[]] /\
+    forallb blank_line (skipn k (split_on 10 input)) = true.
+Proof.
+  intros Eo. destruct (proj1 (fmt_accepts_iff input) (ex_intro _ out Eo)) as [ds E].
+  destruct (fmt_diffs_wf input ds E) as (es & Ee & _).
+  pose proof (trailing_lines_blank input ds E) as Hblank.
+  pose proof (collect_fmt_chain _ _ E) as Hc. unfold rlines in Hc. rewrite decode_line_count in Hc.
+  assert (Eo' := Eo). unfold fmt_bytes, fmt_runes, omap, obind in Eo'. rewrite E in Eo'. injection Eo' as <-.
+  assert (Ee' := Ee). unfold fmt_diffs in Ee'. rewrite E in Ee'. cbn [obind] in Ee'. unfold fmt_diffs_of in Ee'.
+  assert (Hw : Forall (fun m => wf_text (utf8_encode (fd_text m))) (merge_diffs ds)).
+  { unfold merge_diffs. apply merge_loop_wf_text; [|exact I].
+    unfold collect_fmt, omap, obind in E. destruct (collect_fragments (utf8_decode input)); try discriminate.
+    injection E as <-. apply diff_file_wf_text. }
+  destruct (diffs_apply (split_on 10 input) (split_on_no_nl input) (merge_diffs ds) true (-1) 0 es
+              (merge_diffs_sep _ _ Hc) Hw (or_introl (conj eq_refl eq_refl)) Ee') as [Ha _].
+  exists es, (fmt_lines (merge_diffs ds) true (-1)), (Z.to_nat (last (map fd_to (merge_diffs ds)) 0)).
+  split; [exact Ee|]. split; [exact Ha|]. split; [|exact Hblank].
+  rewrite fmt_join_enc.
+  assert (Hm : fmt_join (map enc_fd ds) true (-1) = fmt_join (map enc_fd (merge_diffs ds)) true (-1)).
+  { rewrite <- !fmt_join_enc. f_equal. apply (fmt_join_merge_diffs _ ds Hc). }
+  rewrite Hm, fmt_join_lines by exact Hw. reflexivity.
+Qed.
